@@ -97,6 +97,24 @@ def iter_cases(ctx, conf, init_variants=True, want_random=True, with_reuse=True,
         v = tuple(x for p_ in pieces for x in p_)
         c += 1
         yield v, params, rng.choice(("tuple", "char", "bytes")), rng.choice(tok.DELIVERY), "large_max_length"
+    # the same whole numbers handed over as other integer types (numpy scalars of every width, IntEnum), and `generator=True`
+    # spelled 1 / numpy.True_: results are bound by the same statements
+    rng = ctx.rng("dress")
+    small_d = plain + (G.param_tuples(4, init=True) if init_variants else [])
+    for i in range(max(300, conf["random"] // 2)):
+        if i % 3 == 0:
+            max_len = rng.choice((100, 127, 128, 200, 255, 256, 257, 300))
+            params = (rng.choice((1, max_len // 2, max_len)), max_len, rng.choice((0, 1, 3)), 0, 0, rng.choice(G.MODES))
+            v = tuple([1] * rng.choice((max_len - 1, max_len, max_len + 1, 2 * max_len + 1)) + [0] * rng.randint(0, 5) + [1] * rng.randint(0, 3) + [0] * 5)
+        else:
+            params = small_d[rng.randrange(len(small_d))] if i % 2 else G.random_params(rng, 12, init=None if init_variants else False)
+            v = G.structured_random(rng, params, 40)
+        how = tok.DRESS[1 + i % (len(tok.DRESS) - 1)]
+        gen = ("", "|gen=1", "|gen=np", "|gen=int8")[i % 4]
+        c += 1
+        yield v, params, rng.choice(("tuple", "char", "bytes", "int01")), f"{('generator' if gen else rng.choice(tok.DELIVERY))}|dress={how}{gen}", "dressed_parameters"
+        if (c & 255) == 0 and ctx.out_of_time():
+            return
     # a transient fault of the source: one read() call raises, the next one succeeds.  Whether the exception reaches the
     # caller or the tokenizer carries on, every token handed out is bound by the properties
     if with_faults:
